@@ -187,10 +187,28 @@ def _check(args):
         if len(qs) >= 2:
             a, b = rng.sample(qs, 2)
             a["no_app_error_string"] = rng.choice(["install the app ${%s}" % b["name"], "plain message"])
+    if i % 3 == 1:
+        forms.add_exotics(rng_for(seed, PID, "exotic", i), form, ["calc_msgs", "calc_msgs", "legacy_hint", "search", "osm"], p=0.5)
     dl = (form.get("settings") or [{}])[0].get("default_language", "default")
     st, r = xf.convert_form(forms.as_dict(form))
     if st != "ok":
         return {"i": i, "skip": st}
+    if i % 4 == 2:
+        # the same Survey object rendered again after a translated question was added through the element API
+        from pyxform.builder import create_survey_element_from_dict as _mk
+        langs, _ = forms.form_langs(form)
+        tr = (lambda t: {lg: f"{t} {lg[:2]}" for lg in langs}) if langs else (lambda t: t)
+        try:
+            sv = r._survey
+            sv.add_child(_mk({"type": "integer", "name": "added_q9", "label": tr("Age"), "hint": tr("In years"),
+                              "bind": {"constraint": ". < 150", "jr:constraintMsg": tr("Too old")}}))
+            x3 = sv.to_xml(validate=False, pretty_print=False)
+        except Exception:
+            x3 = None
+        if x3:
+            probs3, _ = audit(x3, dl)
+            if probs3 and not classify(form, probs3):
+                return {"i": i, "form": form, "what": "after add_child() of a translated question and a second to_xml(): " + "; ".join(probs3)[:500], "finding": None}
     # the JSON API: the same survey rebuilt from its intermediate dict, selects carrying `itemset` only
     if "search(" in json.dumps(form["survey"]):
         import copy
@@ -234,7 +252,8 @@ def oracle(seed, tier, searching=False):
     return {
         "evaluations": len(res), "distinct_nontrivial": len({r["key"] for r in oks if r["n"] > 0}),
         "rule": "generated forms with 0-3 languages (incl. languages that are prefixes of one another), sparse translated labels/hints/guidance/messages/"
-                "media on questions, groups and choices, shared lists, search() selects, names containing `guidance_hint`; on the real XForm every "
+                "media on questions, groups and choices, shared lists, search() selects, names containing `guidance_hint`, calculate rows with translated or "
+                "reference-bearing constraint/required messages, legacy types, osm; a quarter of the cases render the survey again after add_child() of a translated question; on the real XForm every "
                 "jr:itext id and every itextId must exist in every translation, all translations must hold the same ids, no language or id twice, and "
                 "the default language (when a translation) must be the only one marked default",
         "accepted": len(oks), "skipped": sum(1 for r in res if "skip" in r),
@@ -265,6 +284,14 @@ def replay_finding(slug):
 def replay(path):
     payload = json.loads(Path(path).read_text())
     form = payload["input"]["form"]
+    case_no = payload["input"].get("case")
+    if case_no is not None:
+        # the generated case (it may include an API sequence after the conversion): run it again on this tree
+        res = _check((payload.get("seed", 20260930), case_no))
+        if res.get("form") == form and "what" in res and not res.get("finding"):
+            print(res["what"])
+            print(f"VIOLATION property={PID} replay={path}")
+            return 1
     st, r = xf.convert_form(forms.as_dict(form))
     if st == "ok":
         probs, _ = audit(r.xform, (form.get("settings") or [{}])[0].get("default_language", "default"))
